@@ -1,4 +1,7 @@
-use std::collections::HashMap;
+use std::collections::{
+    HashMap,
+    HashSet,
+};
 
 use astria_core::crypto::{
     Signature,
@@ -29,6 +32,9 @@ pub(super) enum QuorumError {
         commit_voting_power: u64,
         total_voting_power: u64,
     },
+
+    #[error("commit contained more than one signature of validator `{validator}`")]
+    DuplicateSignature { validator: tendermint::account::Id },
 
     #[error("commit contained an empty signature field for validator `{validator}`")]
     EmptySignature { validator: tendermint::account::Id },
@@ -113,6 +119,7 @@ pub(super) fn ensure_commit_has_quorum(
         .collect::<HashMap<_, _>>();
 
     let mut commit_voting_power = 0u64;
+    let mut validators_seen = HashSet::new();
     for vote in &commit.signatures {
         // we only care about votes that are for the Commit.BlockId (ignore absent validators and
         // votes for nil)
@@ -130,6 +137,13 @@ pub(super) fn ensure_commit_has_quorum(
                 validator: *validator_address,
             });
         };
+
+        // each validator's voting power must only be counted once
+        if !validators_seen.insert(*validator_address) {
+            return Err(QuorumError::DuplicateSignature {
+                validator: *validator_address,
+            });
+        }
 
         // verify validator exists in validator set
         let Some(validator) = validator_map.get(validator_address) else {
